@@ -54,19 +54,20 @@ Proof. exact encode_total. Qed.
 Print Assumptions C16_encode_total.
 
 (* For every accepted struct type and EVERY abstract file — missing / extra / duplicated /
-   mistyped items, wrong label counts, null and unknown values — without marked values:
-   decoding yields a value and diagnostics, never a panic. *)
+   mistyped items, wrong label counts, null, unknown and marked values: decoding yields a
+   value and diagnostics, never a panic. *)
 Theorem C16_decode_total :
-  forall s f, wf_schema s -> file_unmarked f = true -> decode s f <> DPanic.
+  forall s f, wf_schema s -> decode s f <> DPanic.
 Proof. exact decode_total. Qed.
 Print Assumptions C16_decode_total.
 
-(* REFUTED without the restriction: a marked value (reachable through an EvalContext with
-   marked variables) makes gocty.FromCtyValue, hence DecodeBody, panic. *)
-Theorem C16_decode_total_marked_refuted :
-  exists s f, wf_schema s /\ decode s f = DPanic.
-Proof. exact decode_total_marked_refuted. Qed.
-Print Assumptions C16_decode_total_marked_refuted.
+(* Marked values (EvalContext with marked variables) are decoded exactly as their unmarked
+   counterparts: DecodeExpression drops the marks (repaired in /repo 4212bed; before, gocty
+   panicked on them). *)
+Theorem C16_marked_value_decodes_like_unmarked :
+  forall t v, from_val t (unmark_deep v) = from_val t v.
+Proof. exact from_val_unmark. Qed.
+Print Assumptions C16_marked_value_decodes_like_unmarked.
 
 (* ---- both syntaxes --------------------------------------------------------------------------- *)
 (* Decoding uses a body only through Content / PartialContent / JustAttributes: two body
@@ -157,6 +158,13 @@ Example C16_example :
     = DOk (SStruct [SStr []; SPtr None; SMap None; SSlice None; SPtr None; SMap (Some [([122], SStr [116;114;117;101])])])
           [d_missing_attr; d_unsuitable; d_dup_block].
 Proof. vm_compute. repeat split; reflexivity. Qed.
+
+(* a marked string, and a list with a marked element *)
+Example C16_example_marked :
+  decode [([97], KAttr, FString); ([108], KAttr, FSlice FInt)]
+         (AFile [([97], VMark [1] (VStr [115])); ([108], VTuple [VNum (nz 1); VMark [2] (VNum (nz 2))])] [])
+  = DOk (SStruct [SStr [115]; SSlice (Some [SInt 1; SInt 2])]) [].
+Proof. vm_compute. reflexivity. Qed.
 
 (* the premises H12 / H02 / H11 are satisfiable (a toy source type: the file itself) *)
 Inductive toy := TVal (v : val) | TFile (f : afile).
